@@ -307,6 +307,52 @@ func c14(c *Ctx) {
 
 	plits := stringLiteralsOf(ppk, "parseDefinition")
 	r.Check(contains(plits, "flags") && contains(plits, "#") && contains(plits, "bitflags"), "R14.F", "flagindex:parser-marks-flags-word", "", "the parser turns `flags:#` into the pseudo-type bitflags")
+	// … and only that: the re-typing is reachable only through the equal edge of Type == "#" and of a test of the name
+	// (a parameter that merely is called flags — flags:int in the shipped schema — keeps its type)
+	if pd := c.fn("R14.F", load.ParsePkg, "", "parseDefinition"); pd != nil {
+		trn := an.NewTracerNoAlloc()
+		var marks []ssa.Instruction
+		for _, b := range pd.Blocks {
+			for _, in := range b.Instrs {
+				if st, ok := in.(*ssa.Store); ok {
+					if k, ok := st.Val.(*ssa.Const); ok && k.Value != nil && k.Value.Kind() == constant.String && constant.StringVal(k.Value) == "bitflags" {
+						marks = append(marks, st)
+					}
+				}
+			}
+		}
+		if len(marks) == 0 {
+			r.Undecide("R14.F", "flagindex:only-hash-typed-flags", c.pos(pd.Pos()), "the store of \"bitflags\" was not found in parseDefinition")
+		} else {
+			cutType, cutName := map[an.Edge]bool{}, map[an.Edge]bool{}
+			for _, i := range an.Ifs(pd) {
+				cd, ok := an.Classify(i)
+				if !ok || cd.Kind != "eq" {
+					continue
+				}
+				lit, other := "", ssa.Value(nil)
+				for _, pr := range [][2]ssa.Value{{cd.X, cd.Y}, {cd.Y, cd.X}} {
+					if k, ok := pr[0].(*ssa.Const); ok && k.Value != nil && k.Value.Kind() == constant.String {
+						lit, other = constant.StringVal(k.Value), pr[1]
+					}
+				}
+				if other == nil {
+					continue
+				}
+				o := trn.OriginString(other)
+				switch {
+				case lit == "#" && strings.Contains(o, "Parameter.Type"):
+					cutType[cd.EdgeWhen(true)] = true
+				case strings.Contains(o, "Parameter.Name"):
+					cutName[cd.EdgeWhen(true)] = true
+				}
+			}
+			okT := len(cutType) > 0 && !blocksReachable(an.Reach(pd, cutType), marks)
+			okN := len(cutName) > 0 && !blocksReachable(an.Reach(pd, cutName), marks)
+			r.Check(okT && okN, "R14.F", "flagindex:only-hash-typed-flags", c.pos(marks[0].Pos()),
+				sprintf("the re-typing to bitflags requires Type == \"#\" (%v) and a matching name (%v): otherwise a parameter such as flags:int disappears from the generated struct", okT, okN))
+		}
+	}
 }
 
 func contains(xs []string, s string) bool {
@@ -671,6 +717,15 @@ func elementOfTainted(args []ssa.Value, tv map[ssa.Value]bool, tf map[string]boo
 			return false
 		}
 		if walk(a, 0) {
+			return true
+		}
+	}
+	return false
+}
+
+func blocksReachable(reach map[*ssa.BasicBlock]bool, ins []ssa.Instruction) bool {
+	for _, in := range ins {
+		if reach[in.Block()] {
 			return true
 		}
 	}
